@@ -33,13 +33,14 @@ PROPS = {
         ],
     },
     "C05": {
-        "lean_modules": ["DocsModel.Props.C05"],
+        "lean_modules": ["DocsModel.Props.C05", "DocsModel.Props.C05Refine"],
         "trusted_base": COMMON_TRUST + [
             "redb tables are modelled as sorted lists whose range() is the in-order filter by the bounds (element-wise tuple comparison, lexicographic byte strings); redb itself is not verified",
         ],
         "assumptions": [
             "namespace and author ids are 32 bytes (what the crate's types guarantee)",
-            "the equation query = spec for every TablesInv state is validated by the correspondence check (model line and specification line per query); the Lean file proves the window law, the filter predicates, exactness of the prefix scan bounds and the selector's no-invention law",
+            "query = spec is proved for every reachable state of the tables (query_eq_spec, query_eq_spec_reachable): both index paths, all author/key filters, both sort orders and directions, latest-per-key with the author and deletion-marker filters applied to the winner, offset and limit; the specification QuerySpec.spec mentions no tables, bounds or indexes; model line and specification line are still compared with the real get_many for every generated query",
+            "author ids in queries are 32 bytes",
         ],
     },
     "C06": {
